@@ -23,6 +23,7 @@ sys.path.insert(0, os.path.dirname(os.path.abspath(__file__)))
 import common  # noqa: E402
 import corpus  # noqa: E402
 
+BRANCH = os.environ.get("COV_BRANCH") == "1"      # also list branch outcomes that were never taken (nightly -Z coverage-options=branch)
 TOOLS = os.path.expanduser("~/.rustup/toolchains/nightly-x86_64-unknown-linux-gnu/lib/rustlib/x86_64-unknown-linux-gnu/bin")
 
 
@@ -32,6 +33,7 @@ def main():
     if not os.path.exists(os.path.join(TOOLS, "llvm-profdata")):
         print("nightly llvm-tools not found: nothing measured")
         return 2
+    os.makedirs(os.path.join(common.VERIF, "coverage"), exist_ok=True)
     res = corpus.load_or_run(seed, tier, keep_others=True)
     root = os.path.join(common.WORK, "corpus", res["key"])
     scratch = tempfile.mkdtemp(prefix="entrait-cov-")
@@ -43,7 +45,7 @@ def main():
             ws = os.path.join(scratch, "ws-" + feat)
             shutil.copytree(os.path.join(root, feat), ws)
             target = os.path.join(scratch, "target-" + feat)
-            env = dict(os.environ, RUSTFLAGS="-C instrument-coverage --cfg %s --cap-lints allow" % common.GUARD,
+            env = dict(os.environ, RUSTFLAGS="-C instrument-coverage %s--cfg %s --cap-lints allow" % ("-Z coverage-options=branch " if BRANCH else "", common.GUARD),
                        LLVM_PROFILE_FILE=os.path.join(prof, feat + "-%p-%m.profraw"), CARGO_TARGET_DIR=target,
                        CARGO_INCREMENTAL="0", CARGO_NET_OFFLINE="true")
             env.pop("ENTRAIT_VERIF_DUMP", None)
@@ -52,12 +54,15 @@ def main():
             objs += glob.glob(os.path.join(target, "debug", "deps", "libentrait_macros-*.so"))
         merged = os.path.join(scratch, "merged.profdata")
         subprocess.run([os.path.join(TOOLS, "llvm-profdata"), "merge", "-sparse", "-o", merged] + glob.glob(os.path.join(prof, "*.profraw")), check=True)
-        cmd = [os.path.join(TOOLS, "llvm-cov"), "show", objs[0], "-instr-profile=" + merged, "-show-line-counts-or-regions"]
+        cmd = [os.path.join(TOOLS, "llvm-cov"), "show", objs[0], "-instr-profile=" + merged, "-show-line-counts-or-regions"] + (["-show-branches=count"] if BRANCH else [])
         for o in objs[1:]:
             cmd += ["-object", o]
         show = subprocess.run(cmd, stdout=subprocess.PIPE, stderr=subprocess.DEVNULL, text=True).stdout
     finally:
         shutil.rmtree(scratch, ignore_errors=True)
+    if BRANCH:
+        with open(os.path.join(common.VERIF, "coverage", "branches.raw.txt"), "w") as fh:
+            fh.write(show)
     cur, rows, total, hit = None, [], {}, {}
     for line in show.split("\n"):
         if line.startswith("/") and line.rstrip().endswith(":"):
